@@ -39,6 +39,12 @@ class KeyPool:
             self.rare = {name: K.gen_key(kind, param, ctx.scratch) for name, kind, param in
                          [("rsapss2048", "rsapss", 2048), ("p384", "ec", "P-384"), ("p521", "ec", "P-521"), ("k256", "ec", "secp256k1"), ("oct64", "oct", 64),
                           ("oct65", "oct", 65), ("oct129", "oct", 129), ("oct200", "oct", 200)]}
+        # HMAC secrets are octets, whatever the last one is: keys that end like a line of text (LF, CR LF, blank, NUL, "=")
+        if not want:
+            import os as _os
+            tails = {"oct48lf": (47, b"\n"), "oct70crlf": (68, b"\r\n"), "oct33sp": (32, b" "), "oct40nul": (39, b"\x00"), "oct64eq": (63, b"="), "oct66lflf": (64, b"\n\n")}
+            (self.keys if tier == "thorough" else self.rare).update(
+                {n_: K.Key("oct", k=_os.urandom(l_) + t_, bits=8 * (l_ + len(t_))) for n_, (l_, t_) in tails.items()})
         # RSA keys of sizes around the points where the signature gains an octet and its base64url text gains a character
         # or a quad (bits mod 8, octets mod 3), and the big ones; from harness/keycache (slow to make)
         self.sized = {}
@@ -360,7 +366,7 @@ def verify_sig(world, pool, tier, rng, provider="openssl"):
             if rkey.kind == "oct":
                 # a MAC made with only the leading part of a long key (one hash block, half of it) is a MAC under another key
                 for cut in (32, 64, 128, len(rkey.k) - 1):
-                    if cut < len(rkey.k):
+                    if cut < len(rkey.k) and rkey.k[cut:].strip(b"\x00"):      # (HMAC itself pads a short key with zero octets: not another key)
                         muts.append(("mac-under-key-prefix-%d" % cut, msg + b"." + hs_sig(K.ALG_ORD[alg], rkey.k[:cut], msg), False))
                 muts.append(("mac-under-key-zero-extended", msg + b"." + hs_sig(K.ALG_ORD[alg], rkey.k + b"\x00", msg), False if len(rkey.k) >= 128 else None))
             for _ in range(6):
@@ -419,7 +425,7 @@ def verify_sig(world, pool, tier, rng, provider="openssl"):
             if key.kind == "oct":
                 # a MAC made with only the leading part of a long key (one hash block, half of it) is a MAC under another key
                 for cut in (16, 32, 48, 64, 128, len(key.k) - 1):
-                    if cut < len(key.k):
+                    if cut < len(key.k) and key.k[cut:].strip(b"\x00"):      # (HMAC itself pads a short key with zero octets: not another key)
                         emit(msg + b"." + hs_sig(K.ALG_ORD[alg], key.k[:cut], msg), "mac-under-key-prefix-%d" % cut, False)
                 if len(key.k) >= 128:
                     emit(msg + b"." + hs_sig(K.ALG_ORD[alg], key.k + b"\x00", msg), "mac-under-key-zero-extended", False)
@@ -748,7 +754,11 @@ def claims_suite(world, pool, tier, rng):
                 ("leeway nbf -1", ("nbf", (False, -1))), ("leeway nbf 0", ("nbf", (True, 0))), ("leeway nbf 5", ("nbf", (True, 5))),
                 # a later value that extends / is extended by / empties the earlier one; spans that do not fit 32 bits
                 ("claimset iss " + hx(b"ab"), ("iss", b"ab")), ("claimset iss -", ("iss", b"")), ("claimset aud " + hx(b"a.example"), ("aud", b"a.example")),
-                ("leeway exp %d" % (2 ** 31 + 5), ("exp", (True, 2 ** 31 + 5))), ("leeway nbf %d" % (2 ** 32 + 5), ("nbf", (True, 2 ** 32 + 5)))]
+                ("leeway exp %d" % (2 ** 31 + 5), ("exp", (True, 2 ** 31 + 5))), ("leeway nbf %d" % (2 ** 32 + 5), ("nbf", (True, 2 ** 32 + 5))),
+                # an argument that is not ONE of iss / sub / aud (several flags at once, none, a flag of another call) is refused
+                # and changes no expectation
+                ("claimdel 5", None), ("claimdel 3", None), ("claimset 5 " + hx(b"z"), None), ("claimdel 7", None), ("claimset 65 " + hx(b"z"), None),
+                ("claimdel 0", None), ("claimdel 13", None)]
     maxlen = 3 if thorough else 2
     probes = [{"exp": 1000}, {"exp": 996}, {"exp": 1001}, {"nbf": 1000}, {"nbf": 1004}, {"nbf": 1006},
               {"iss": "a", "aud": "a"}, {"iss": "b"}, {"aud": "a"}, {}, {"iss": "ab", "aud": "a.example"}, {"iss": ""},
@@ -762,6 +772,8 @@ def claims_suite(world, pool, tier, rng):
         pol = dict(default)
         for i in s:
             world.op("ck 0 " + alphabet[i][0], tag="cfg")
+            if alphabet[i][1] is None:
+                continue
             k, v = alphabet[i][1]
             if v == "REFUSED":
                 prev = pol[k][1] if isinstance(pol[k], tuple) and pol[k] and pol[k][0] == "refused" else pol[k]
@@ -1129,7 +1141,12 @@ def reuse_suite(world, pool, tier, rng):
                  # which the callback wrote something into the per-call config's ctx
                  ("setcb0-writes-ctx", "setcb0 ctx,setctx,key:%d:%d,alg:1" % it), ("setcb0-key2-reads-ctx", "setcb0 ctx,key:%d:%d,alg:1" % it2),
                  ("setcb-reads-ctx", "setcb ctx,setctx,key:%d:%d,alg:1" % it),
-                 ("setkey-refused", "setkey 7 %d %d" % it)]          # a context-only update keeps the callback; a refused setkey keeps the key
+                 ("setkey-refused", "setkey 7 %d %d" % it),          # a context-only update keeps the callback; a refused setkey keeps the key
+                 # claim expectations: one that is stored, one that is refused part-way (not UTF-8: the check stays on with nothing
+                 # to compare with), the accessor, the delete -- the accessor and verify itself change nothing
+                 ("claim-iss", "claimset iss " + hx(b"good")), ("claim-iss-refused", "claimset iss " + hx(b"\xff\xfe")),
+                 ("claim-aud-refused", "claimset aud " + hx(b"a\xc0\xaf")), ("claimget-iss", "claimget iss"), ("claimget-aud", "claimget aud"),
+                 ("claimdel-iss", "claimdel iss")]
     vmsg = alpha[0][1].rsplit(b".", 1)[0]
     valid2 = ("valid-under-key2", vmsg + b"." + hs_sig(1, key2.k, vmsg))
     toks2 = [alpha[0], alpha[1], alpha[8], valid2]      # valid, badsig, unsigned, valid under the second key
@@ -1142,6 +1159,10 @@ def reuse_suite(world, pool, tier, rng):
                   (ks["setcb-reads-ctx"], len(cfg_steps), len(cfg_steps), ks["setcb0-writes-ctx"], len(cfg_steps), len(cfg_steps))]
     forced = [(ks[a], t1, ks[b], t2) for a in ("setcb-key", "setkey", "setcb-key2", "setkey2") for b in ("setcb-key", "setkey", "setcb-key2", "setkey2", "setcb-none", "unsetkey", "setcb-ctx-only", "setkey-refused")
               for t1 in (v1, v2) for t2 in (v1, v2)]
+    forced += [(ks["setkey"], ks[c_]) + (ks[g_],) * n_ + (v1,) * 4 for c_ in ("claim-iss", "claim-iss-refused", "claim-aud-refused")
+               for g_ in ("claimget-iss", "claimget-aud") for n_ in (0, 1)]
+    forced += [(ks["setkey"], ks["claim-iss-refused"], v1, ks["claimget-iss"], v1, ks["claimdel-iss"], v1, v1),
+               (ks["setkey"], ks["claim-iss"], ks["claim-iss-refused"], v1, v1, ks["claim-iss"], v1, v1)]
     hist = forced_ctx + forced + rng.sample(hist, 1500 if tier == "thorough" else 300)
     for h in hist:
         world.op("ck 2 new", tag="cfg")
@@ -1388,7 +1409,9 @@ def callbacks_suite(world, pool, tier, rng):
              "cget:json:-", "hget:str:" + hx(b"alg"), "getalg",
              # header members other than alg: present on the token or not, the callback may add, change or drop them
              S("hset", b"crit", "json", hx(b'["exp"]'), 1), "hdel:" + hx(b"crit"), S("hset", b"kid", "str", hx(b"other"), 1),
-             S("hset", b"", "json", hx(b'{"crit":["b64"],"b64":false,"zip":"DEF"}'), 1)]
+             S("hset", b"", "json", hx(b'{"crit":["b64"],"b64":false,"zip":"DEF"}'), 1),
+             # a key id of another JSON type, or none at all: whatever the callback leaves in the header, the MAC decides
+             S("hset", b"kid", "int", "5", 1), S("hset", b"kid", "bool", "1", 1), S("hset", b"kid", "json", hx(b'{"a":[1]}'), 1), "hdel:" + hx(b"kid")]
     maxlen = 2
     progs = [(s,) for s in steps] + ([p for p in itertools.product(steps, repeat=2)] if tier == "thorough" else
                                      rng.sample([p for p in itertools.product(steps, repeat=2)], 120))
@@ -1407,6 +1430,11 @@ def callbacks_suite(world, pool, tier, rng):
         msg = seg(hd) + b"." + seg(pl)
         toks.append(("signed", dict(pl, _hdr="crit,kid,cty,x"), msg + b"." + pool.sign("oct32", "HS256", msg)))
         toks.append(("unsigned", dict(pl, _hdr="crit,kid"), mk_token({"alg": "none", "crit": ["exp"], "kid": "k"}, pl)))
+    # tokens whose MAC is not the key's (made under another key; the MAC of another message), with and without a key id of any type
+    for hd in ({"alg": "HS256"}, {"alg": "HS256", "kid": "k"}, {"alg": "HS256", "kid": 5}, {"alg": "HS256", "kid": None}, {"alg": "HS256", "kid": {"a": 1}}):
+        msg = seg(hd) + b"." + seg({"exp": 2000})
+        toks.append(("signed", {"exp": 2000, "_mac": "other key", "_hdr": str(hd.get("kid", "-"))}, msg + b"." + hs_sig(K.ALG_ORD["HS256"], b"\x55" * 32, msg)))
+        toks.append(("signed", {"exp": 2000, "_mac": "other message", "_hdr": str(hd.get("kid", "-"))}, msg + b"." + pool.sign("oct32", "HS256", msg + b"x")))
     for cfg in cfgs:
         for signed in (True, False):
             # reference: same configuration, no callback
@@ -1420,7 +1448,7 @@ def callbacks_suite(world, pool, tier, rng):
                 if (kind == "signed") != signed:
                     continue
                 refs[k] = len(world.ops)
-                metas.append((len(world.ops), {"kind": "verify", "role": "no-callback", "cfg": str(cfg)[:60], "payload": str(pl)[:60]}))
+                metas.append((len(world.ops), {"kind": "verify", "role": "no-callback", "cfg": str(cfg)[:60], "payload": str(pl)[:90]}))
                 world.op("ck 1 verify " + hx(tok), tag="verify")
             for pi_, prog in enumerate(progs):
                 # non-zero results of every kind: odd, even, negative, beyond a byte, beyond 16 bits
@@ -1433,7 +1461,7 @@ def callbacks_suite(world, pool, tier, rng):
                     world.op("ck 0 setcb " + ",".join(prog) + (",ret:%d" % ret if ret else ""), tag="cfg")
                     for k in refs:
                         metas.append((len(world.ops), {"kind": "verify", "role": "with-callback", "ref": refs[k], "cbret": ret,
-                                                       "prog": ",".join(prog)[:100], "cfg": str(cfg)[:60], "payload": str(toks[k][1])[:60]}))
+                                                       "prog": ",".join(prog)[:100], "cfg": str(cfg)[:60], "payload": str(toks[k][1])[:90]}))
                         world.op("ck 0 verify " + hx(toks[k][2]), tag="verify")
     return metas
 
@@ -1501,6 +1529,8 @@ def falsify_callbacks(m, out, eo):
     c = c14_contract(out)
     if c:
         return "C14 contract broken: " + c
+    if "_mac" in m.get("payload", "") and field(out, "rc") == "0":
+        return "accepted a token whose MAC is not the key's (%s; callback [%s])" % (m["payload"], m.get("prog", "-"))
     if m.get("role") == "with-callback":
         ref = eo[m["ref"]]
         if m["cbret"] == 0 and field(out, "rc") != field(ref, "rc"):
@@ -1675,6 +1705,25 @@ def setget_suite(world, pool, tier, rng):
                 want = _py_apply(m, op)
                 metas.append((len(world.ops), {"kind": "setget", "op": "non-replacing set of %s after `%s`" % (nm_.decode(), cfgcall), "want": want, "on": "builder-" + which}))
                 world.op(_line("bl 0", which, op), tag="setget")
+    # member names that are not UTF-8 text (Latin-1, overlong forms, lone continuation octets, surrogates, beyond U+10FFFF) are
+    # refused by every typed set and never stored; names that are UTF-8 are members like any other
+    for ni, nm_ in enumerate([b"caf\xe9", b"x\xc0\xaf", b"\xff\xfe", b"\xed\xa0\x80", b"\xf4\x90\x80\x80", b"ok\x80", b"\xe2\x82", b"\xc3\xa9", b"\xe2\x82\xac", b"\xf0\x9f\x94\x91"]):
+        for which in ("h", "c"):
+            for rp in (0, 1):
+                world.op("bl 0 new", tag="cfg")
+                m = PS.PyMap()
+                pre = ("set", "int", hx(b"a"), "1", 1)
+                _py_apply(m, pre)
+                world.op(_line("bl 0", which, pre), tag="cfg")
+                for op in [("set", "int", hx(nm_), "7", rp), ("get", "int", hx(nm_)), ("set", "str", hx(nm_), hx(b"v"), rp), ("get", "str", hx(nm_)),
+                           ("set", "bool", hx(nm_), "1", rp), ("get", "bool", hx(nm_)), ("set", "json", hx(nm_), hx(b'{"k":[1]}'), rp), ("get", "json", hx(nm_)),
+                           ("del", hx(nm_))]:
+                    want = _py_apply(m, op)
+                    metas.append((len(world.ops), {"kind": "setget", "op": "%s with the name %r" % (str(op[:2]), nm_), "want": want, "on": "builder-" + which}))
+                    world.op(_line("bl 0", which, op), tag="setget")
+                    metas.append((len(world.ops), {"kind": "setget", "op": "snapshot after %s with the name %r" % (str(op[:2]), nm_),
+                                                   "want": PS.show_get("json", 0, m.d), "on": "builder-" + which}))
+                    world.op("bl 0 %sget json -" % which, tag="setget")
     # values and whole maps of every size: one long string, one array / object whose text has that length, that many short
     # members; each read back typed, as JSON, and as the whole-object snapshot
     for zi, n in enumerate(sizes([1, 100, 200, 250, 300] + STD_SIZES + [8191, 8192, 8193, 30000], lo=1, hi=30000)):
@@ -1775,9 +1824,18 @@ def _cfg_alphabet(it_priv):
           cset(b"x", "json", hx(b'{"y":[1,2.5,"z"]}'), b'{"y":[1,2.5,"z"]}'), ("cdel " + hx(b"x"), lambda b: b.claims.delete(b"x")),
           ("cdel -", lambda b: b.claims.delete(None)),
           ("iat 0", lambda b: setattr(b, "iat", False)), ("iat 1", lambda b: setattr(b, "iat", True)),
+          ("iat -1", lambda b: setattr(b, "iat", True)), ("iat %d" % -2 ** 31, lambda b: setattr(b, "iat", True)), ("iat 256", lambda b: setattr(b, "iat", True)),
           # the application's own time claims of another JSON type (a real, a string, an array): what the library injects replaces them
           ("cset json - %s 1" % hx(b'{"iat":1700000000.5,"nbf":2.5e9,"exp":1e9}'), lambda b: b.claims.set("json", None, b'{"iat":1700000000.5,"nbf":2.5e9,"exp":1e9}', True)),
           ("cset json - %s 1" % hx(b'{"iat":"now","nbf":[1],"exp":{"t":1},"k":1.0}'), lambda b: b.claims.set("json", None, b'{"iat":"now","nbf":[1],"exp":{"t":1},"k":1.0}', True))]
+    # whole documents whose members are objects on both sides: a document set replaces (or keeps) each member as a whole
+    al.append(("@nested", None))
+    for tgt_ in ("c", "h"):
+        for doc_ in (b'{"addr":{"city":"Oslo","zip":"0150"},"lvl":{"a":{"b":1,"c":2}},"exp":{"u":2}}', b'{"addr":{"city":"Bergen"},"lvl":{"a":{"d":3}},"tags":{}}',
+                     b'{"addr":{},"lvl":{"a":null}}'):
+            for rp_ in (1, 0):
+                al.append(("%sset json - %s %d" % (tgt_, hx(doc_), rp_),
+                           (lambda tgt_, doc_, rp_: lambda b: (b.claims if tgt_ == "c" else b.headers).set("json", None, doc_, bool(rp_)))(tgt_, doc_, rp_)))
     for cl in ("exp", "nbf"):
         for secs in (-5, 0, 1, 600, 2 ** 31 - 1, 2 ** 31, 2 ** 32 + 7, 2 ** 62):      # a span is a 64-bit time_t
             al.append(("offset %s %d" % (cl, secs), (lambda cl, secs: lambda b: setattr(b, cl + "_off", secs if secs > 0 else None))(cl, secs)))
@@ -1792,6 +1850,9 @@ def builder_suite(world, pool, tier, rng):
     metas = []
     it = world.add_key(70, pool.keys["oct32"], private=True, alg_attr="HS256")
     al = _cfg_alphabet(it)
+    mark = [i for i, a_ in enumerate(al) if a_[0] == "@nested"][0]
+    al.pop(mark)
+    nested = list(range(mark, mark + 12))
     maxlen = 3 if tier == "thorough" else 2
     seqs = [s for n in range(0, maxlen + 1) for s in itertools.product(range(len(al)), repeat=n)]
     if tier != "thorough":
@@ -1799,6 +1860,8 @@ def builder_suite(world, pool, tier, rng):
     else:
         seqs = [s for s in seqs if len(s) < 3] + rng.sample([s for s in seqs if len(s) == 3], 3000)
     seqs += [tuple(rng.randrange(len(al)) for _ in range(rng.randrange(3, 14))) for _ in range(600 if tier == "thorough" else 120)]
+    # every ordered pair of document sets of the same map whose members are objects on both sides
+    seqs += [(i, j) for i in nested for j in nested if (i < mark + 6) == (j < mark + 6)]
     cbprogs = [None, "cset:int:%s:42:1,hset:str:%s:%s:1" % (hx(b"iat"), hx(b"alg"), hx(b"zz")), "cdel:-,hdel:-",
                "cset:json:-:%s:1" % hx(b'{"exp":1,"q":null}')]
     clocks = [0, 1, 2 ** 31, 2 ** 40]
@@ -2082,6 +2145,10 @@ def roundtrip_suite(world, pool, tier, rng):
                 world.op("bl 0 setkey %d %d %d" % ((a,) + priv), tag="cfg")
                 world.op("bl 0 offset exp 60", tag="cfg")
                 world.op("bl 0 offset nbf 1", tag="cfg") if i % 3 == 0 else None
+                if i % 4 == 1:
+                    # "0 to disable, any other value to enable": switched off and on again with some way of saying "on"
+                    world.op("bl 0 iat 0", tag="cfg")
+                    world.op("bl 0 iat %d" % [1, -1, 2, -2 ** 31, 2 ** 31 - 1, 256, -256, 65536][(i // 4) % 8], tag="cfg")
                 world.op("bl 0 cset json - %s 1" % hx(JL.dumps(claims)), tag="cfg")
                 if hdr:
                     world.op("bl 0 hset json - %s 1" % hx(JL.dumps(hdr)), tag="cfg")
@@ -2368,16 +2435,20 @@ def builder_routes_suite(world, pool, tier, rng, extra_keys=None):
             it = world.add_key(s, key, private=True, alg_attr=None)
             s += 1
             for alg_name in algs:
-                if alg_name == "ES256K" and provider == "gnutls":
-                    continue
-                for route in ("setkey", "cb-key-alg"):
+                # the GnuTLS glue has no ES256K: a builder holding such a key returns no token there (never an unsigned one)
+                no_es256k = alg_name == "ES256K" and provider == "gnutls"
+                for route in ("setkey", "cb-key-alg") + (("setkey-jwk-alg",) if no_es256k else ()):
                     world.op("bl 0 new", tag="cfg")
                     if route == "setkey":
                         world.op("bl 0 setkey %d %d %d" % ((K.ALG_ORD[alg_name],) + it), tag="cfg")
+                    elif route == "setkey-jwk-alg":
+                        it2 = world.add_key(s, key, private=True, alg_attr="ES256K")
+                        s += 1
+                        world.op("bl 0 setkey 0 %d %d" % it2, tag="cfg")
                     else:
                         world.op("bl 0 setcb key:%d:%d,alg:%d" % (it + (K.ALG_ORD[alg_name],)), tag="cfg")
                     metas.append((len(world.ops), {"kind": "gen-route", "key": name, "private": True, "attr": None, "cfg_alg": K.ALG_ORD[alg_name],
-                                                   "route": route + " under " + provider, "expect": "signed:" + alg_name}))
+                                                   "route": route + " under " + provider, "expect": "fail" if no_es256k else "signed:" + alg_name}))
                     world.op("bl 0 gen", tag="gen")
     world.op("prov name " + hx(b"openssl"), tag="cfg")
     return metas
@@ -2699,6 +2770,26 @@ def jwk_import_suite(world, pool, tier, rng):
         s += 1
         if s > 1020:
             s = 1000
+    # "alg" is a name compared as a whole: a registered name with something appended, cut short or in another case is no algorithm
+    # of the library (the item says so: alg = INVAL, and stays a usable key)
+    okey = K.Key("oct", k=bytes(rng.randrange(256) for _ in range(64)), bits=512)
+    seen_ = set()
+    for nm_ in ALG_NAMES:
+        for var_ in (nm_ + "-R", nm_ + "R", nm_ + "K", nm_ + "0", nm_ + " ", " " + nm_, nm_[:-1], nm_.lower(), nm_.upper(), nm_ + nm_, nm_ + "\u0001",
+                     nm_ + "x" * 256, nm_ + " " * 512, nm_ + "K" * 65536):
+            if var_ in seen_:
+                continue
+            seen_.add(var_)
+            world.op("jwks %d del" % s, cmp=False, tag="cfg")
+            world.load_doc(s, json.dumps(dict(okey.jwk(), alg=var_)).encode(), "strn")
+            want = {"kty": 4, "alg": K.ALG_ORD.get(var_, len(ALG_NAMES)), "bits": 512, "priv": 1, "err": 0, "emsg": 0, "kid": "NULL", "use": 0, "ops": 0,
+                    "crv": "NULL", "pem": 0, "oct": hx(okey.k)}
+            metas.append((len(world.ops), {"kind": "import", "key": "oct JWK with \"alg\": %r" % var_, "private": True, "alg": var_, "pad": True, "zeropad": 0,
+                                           "extra": [], "want": want}))
+            world.op("jwks %d item 0" % s, tag="item")
+            s += 1
+            if s > 1020:
+                s = 1000
     return metas
 
 
@@ -2764,10 +2855,12 @@ def keyring_suite(world, pool, tier, rng):
     badmat = pool.keys["rsa2048"].jwk(private=True, extra={"kid": "kbm", "alg": 5})
     docs = {"good": json.dumps(good).encode(), "bad": json.dumps(bad).encode(),
             "mixed3": json.dumps({"keys": [good2, bad, dict(good, kid="k1")]}).encode(), "nonjson": b"{nope",
-            "badmat": json.dumps(badmat).encode()}
+            "badmat": json.dumps(badmat).encode(),
+            # members of "keys" that are not objects are items too (errored, without a kid): positions and counts include them
+            "nonobj": json.dumps({"keys": [good2, 5, None, "x", [1], {}, dict(good, kid="k1")]}).encode()}
     # (kid, errored) per doc
     content = {"good": [("k1", False)], "bad": [("kbad", True)], "mixed3": [("k2", False), ("kbad", True), ("k1", False)], "nonjson": None,
-               "badmat": [(None, True)]}      # the values of a key whose alg is not a string are not read further: no kid
+               "badmat": [(None, True)], "nonobj": [("k2", False)] + [(None, True)] * 5 + [("k1", False)]}      # the values of a key whose alg is not a string are not read further: no kid
     alphabet = [("load", d) for d in docs] + [("free", 0), ("free", 1), ("free", "last"), ("free", 99), ("freebad",), ("freeall",),
                                               ("find", "k1"), ("find", "kbad"), ("find", "nope"), ("find", ""), ("errclr",)]
     maxlen = 4 if tier == "thorough" else 3
@@ -2915,6 +3008,8 @@ def providers_suite(world, pool, tier, rng):
     # --- the switch: names incl. near-misses, ids, from every current provider
     names = [b"openssl", b"gnutls", b"openssl ", b" openssl", b"OpenSSL", b"OPENSSL", b"gnutl", b"gnutlss", b"", b"mbedtls", b"any",
              b"gnutls\x01", b"open\xc5\x9fsl", b"o", b"x" * 300, b"openssl" + b"l" * 250]
+    # a provider name followed by 255, 256, 257, ... further characters is still another name (lengths that agree modulo 2^8, 2^16)
+    names += [nm_ + pad_ * n_ for nm_ in PROVIDER_NAMES for pad_ in (b"x", b" ") for n_ in (255, 256, 257, 512, 1024, 65536)][:: (1 if tier == "thorough" else 1)]
     ids = [0, 1, 2, 3, 4, 5, 255, 65536, 2 ** 31 - 1, -1]
     for start in PROVIDER_NAMES:
         for n in names:
